@@ -171,6 +171,8 @@ def decide(out, obs, n, st, rule):
     failing = {fl["line"] for fl in fails}
     origin = {}
     for ln, o in enumerate(vlib.read_ndjson(obs)):
+        if o.get("outcome") == "notrun":
+            continue
         if o.get("outcome") in ("hang", "abort", "harness_panic"):
             out.fail("NEW", "worker %s during a store history" % o.get("outcome"), o.get("input_case"), family="worker " + str(o.get("outcome")))
             continue
